@@ -69,6 +69,7 @@ func RunOne(t *testing.T, prop *Property, seed uint64, ch *Chooser, tier string,
 		simnet.SetCurrent(nil)
 		simos.SetCurrent(simos.NewFS())
 		simsync.Install(nil)
+		simsync.SkewReset(true)
 		defer func() {
 			if r := recover(); r != nil {
 				if he, ok := r.(harnessError); ok {
